@@ -19,7 +19,7 @@ RULE = ('Each run draws from one seeded tape: world size 1..8 (thorough 1..12), 
         'sweeps, or one of the striped operations / loaders), the rank that runs next whenever several are '
         'runnable, eager vs rendezvous roots per broadcast, allreduce association order, and the heap poison '
         'pattern.  A run is non-trivial when the world has >= 2 ranks and the scheduler took at least one '
-        'decision between runnable ranks; distinct = distinct digest of (configuration, data, schedule, faults).')
+        'decision between runnable ranks; In the thorough tier a quarter of the pipeline runs use deeper bounds (150 frames, 36 trajectories, 16 centres). distinct = digest of (configuration, data, schedule, faults).')
 BUDGET = {'quick': dict(runs=2400, wall_s=55, chunk=20), 'thorough': dict(runs=60000, wall_s=780, chunk=40)}
 COMPONENTS = {'real': ['enspara.cluster.kcenters/kmedoids/hybrid', 'enspara.mpi.ops', 'enspara.mpi.io',
                        'enspara.ra', 'compiled libdist kernels', 'numpy', 'PyTables/mdtraj (loaders)'],
